@@ -66,7 +66,8 @@ def gen_kwargs(r, allow_prep):
     kw = {}
     keys = ["model_key", "range_x", "range_type", "segment", "weight_cp",
             "gcf_k", "method", "optimal_fit_edelta",
-            "optimal_fit_num_samples", "method_kws", "params_initial"]
+            "optimal_fit_num_samples", "method_kws", "params_initial",
+            "x_axis", "preprocessing_options"]
     if allow_prep:
         keys.append("preprocessing")
     for _ in range(int(r.integers(1, 4))):
@@ -97,6 +98,10 @@ def gen_kwargs(r, allow_prep):
         elif k == "params_initial":
             kw[k] = ("PI", float(r.uniform(.5, 2)),
                      float(r.uniform(-1e-7, 1e-7)), bool(r.integers(2)))
+        elif k == "x_axis":
+            kw[k] = ["tip position", "height (measured)"][int(r.integers(2))]
+        elif k == "preprocessing_options":
+            kw[k] = copy.deepcopy(OPTS[int(r.integers(len(OPTS)))])
         elif k == "preprocessing":
             kw[k] = copy.deepcopy(PIPES[int(r.integers(len(PIPES)))])
     return kw
@@ -104,7 +109,14 @@ def gen_kwargs(r, allow_prep):
 
 def gen_op(r):
     t = ["prep", "fit", "fit", "fit", "fit0", "fit0", "edit", "rate", "emod",
-         "bad", "pedit", "nudge", "pattr"][int(r.integers(13))]
+         "bad", "pedit", "nudge", "pattr", "readonly", "prepd"][
+        int(r.integers(15))]
+    if t == "readonly":
+        return ("readonly", int(r.integers(5)))
+    if t == "prepd":
+        # same kind of request, asking for the details dictionary
+        return ("prepd", copy.deepcopy(PIPES[int(r.integers(len(PIPES)))]),
+                copy.deepcopy(OPTS[int(r.integers(len(OPTS)))]))
     if t == "nudge":
         # tiny change of one stored numeric setting, far below any
         # "close enough" tolerance
@@ -171,6 +183,16 @@ def apply_op(idnt, op):
             idnt.rate_quality()
         elif op[0] == "emod":
             idnt.compute_emodulus_mindelta()
+        elif op[0] == "prepd":
+            idnt.apply_preprocessing(copy.deepcopy(op[1]),
+                                     copy.deepcopy(op[2]), ret_details=True)
+        elif op[0] == "readonly":
+            # queries that must not change what the curve shows
+            [idnt.get_ancillary_parameters,
+             idnt.get_rating_parameters,
+             idnt.estimate_contact_point_index,
+             idnt.get_initial_fit_parameters,
+             idnt.estimate_optimal_mindelta][op[1]]()
         elif op[0] == "nudge":
             fp = idnt.fit_properties
             what, d, via_fit = op[1], op[2], op[3]
@@ -254,6 +276,16 @@ def snapshot(idnt):
             for bound in (v.min, v.max):
                 if np.isfinite(bound) and abs(v.value - bound) <= 1e-3 * ref:
                     pinned = True
+        # the same for the fits of a plateau scan (their moduli decide
+        # which plateau the final fit uses)
+        if fp.get("optimal_fit_edelta") and "optimal_fit_E_array" in fp \
+                and pi is not None and "E" in pi:
+            ea = np.asarray(fp["optimal_fit_E_array"])
+            lo, hi = pi["E"].min, pi["E"].max
+            if np.any(np.abs(ea - lo) <= 1e-3 * abs(pi["E"].value)) or \
+                    (np.isfinite(hi) and np.any(np.abs(ea - hi)
+                                                <= 1e-3 * abs(hi))):
+                pinned = True
         out["pinned"] = pinned
     for c in ["fit", "fit residuals", "fit range"]:
         if c in idnt:
